@@ -308,7 +308,12 @@ impl SyncWorld {
                         params.add("id", r.id.clone()).unwrap();
                         let q = if r.entity == 0 {
                             params.add("v", *value as i64).unwrap();
-                            "mutate { app.Item { id:$id num:$v } }"
+                            if *value % 2 == 0 {
+                                "mutate { app.Item { id:$id num:$v } }"
+                            } else {
+                                params.add("t", text_for(*value)).unwrap();
+                                "mutate { app.Item { id:$id num:$v name:$t } }"
+                            }
                         } else {
                             params.add("v", text_for(*value)).unwrap();
                             "mutate { app.Note { id:$id text:$v } }"
